@@ -13,11 +13,14 @@ import (
 // E is a node of the spec's expression AST (the tagged records of SoyExpr.tla).
 type E = map[string]interface{}
 
-func ENull() E             { return E{"k": "null"} }
-func EBool(b bool) E       { return E{"k": "bool", "v": b} }
-func EInt(n int) E         { return E{"k": "int", "v": n} }
-func EFloat(num, sh int) E { num, sh = normDyadic(num, sh); return E{"k": "float", "num": num, "sh": sh} }
-func EStr(s string) E      { return E{"k": "str", "v": s} }
+func ENull() E       { return E{"k": "null"} }
+func EBool(b bool) E { return E{"k": "bool", "v": b} }
+func EInt(n int) E   { return E{"k": "int", "v": n} }
+func EFloat(num, sh int) E {
+	num, sh = normDyadic(num, sh)
+	return E{"k": "float", "num": num, "sh": sh}
+}
+func EStr(s string) E { return E{"k": "str", "v": s} }
 
 // EBigInt is an integer literal beyond 32 bits, carried as its decimal digits.
 func EBigInt(digits string) E { return E{"k": "bigint", "v": digits} }
@@ -52,10 +55,10 @@ func EFn(name string, args ...E) E {
 	}
 	return E{"k": "fn", "name": name, "args": args}
 }
-func ENeg(a E) E           { return E{"k": "neg", "a": a} }
-func ENot(a E) E           { return E{"k": "not", "a": a} }
+func ENeg(a E) E               { return E{"k": "neg", "a": a} }
+func ENot(a E) E               { return E{"k": "not", "a": a} }
 func EBin(op string, a, b E) E { return E{"k": op, "a": a, "b": b} }
-func ETern(c, a, b E) E    { return E{"k": "tern", "c": c, "a": a, "b": b} }
+func ETern(c, a, b E) E        { return E{"k": "tern", "c": c, "a": a, "b": b} }
 
 func normDyadic(num, sh int) (int, int) {
 	for sh > 0 && num%2 == 0 {
@@ -390,11 +393,14 @@ func ExprVars(e E) []string {
 // V is a Soy value in the spec's tagged JSON encoding.
 type V = map[string]interface{}
 
-func VNull() V             { return V{"t": "null"} }
-func VBool(b bool) V       { return V{"t": "bool", "v": b} }
-func VInt(n int) V         { return V{"t": "int", "v": n} }
-func VFloat(num, sh int) V { num, sh = normDyadic(num, sh); return V{"t": "float", "num": num, "sh": sh} }
-func VStr(s string) V      { return V{"t": "str", "v": s} }
+func VNull() V       { return V{"t": "null"} }
+func VBool(b bool) V { return V{"t": "bool", "v": b} }
+func VInt(n int) V   { return V{"t": "int", "v": n} }
+func VFloat(num, sh int) V {
+	num, sh = normDyadic(num, sh)
+	return V{"t": "float", "num": num, "sh": sh}
+}
+func VStr(s string) V { return V{"t": "str", "v": s} }
 
 // VBigInt is an integer value beyond 32 bits, carried as its decimal digits.
 func VBigInt(digits string) V { return V{"t": "bigint", "v": digits} }
